@@ -84,6 +84,21 @@ OpenOf(ph, form) ==
                 parts |-> [i \in DOMAIN ps |-> [n |-> ps[i], type |-> CtOf(ph, ps[i]), pl |-> PayloadOf(ph, ps[i])]],
                 rels  |-> [i \in DOMAIN srcs |-> [src |-> srcs[i], items |-> LoadItems(ph, srcs[i], parts)]]]
 
+\* ------------------------------------------------------------------ pptx.Presentation(): Open + main-part checks
+OFFICE_DOC == "http://schemas.openxmlformats.org/officeDocument/2006/relationships/officeDocument"
+PresTypes  == {"application/vnd.openxmlformats-officedocument.presentationml.presentation.main+xml",
+               "application/vnd.ms-powerpoint.presentation.macroEnabled.main+xml"}
+ApiOutcome(ph, form) ==
+  LET pk == OpenOf(ph, form) IN
+  IF ~pk.ok THEN pk
+  ELSE LET root  == IF \E r \in Range(pk.rels) : r.src = ROOT THEN (CHOOSE r \in Range(pk.rels) : r.src = ROOT).items ELSE <<>>
+           mains == {it \in Range(root) : it.type = OFFICE_DOC /\ ~it.ext}
+       IN IF mains = {} THEN Refused("KeyError")
+          ELSE IF Cardinality(mains) > 1 THEN Refused("ValueError")
+          ELSE LET m == CHOOSE it \in mains : TRUE
+                   ty == (CHOOSE p \in Range(pk.parts) : p.n = m.tgt).type
+               IN IF ty \in PresTypes THEN pk ELSE Refused("ValueError")
+
 \* ------------------------------------------------------------------ comparing loaded packages (order-free)
 PartSet(pk)  == Range(pk.parts)
 PartNames(pk) == {p.n : p \in PartSet(pk)}
@@ -123,8 +138,8 @@ Dfs(pk, todo, seen) ==            \* todo: Seq of names still to expand (stack),
        IN Dfs(pk, Tail(todo), F[Len(kids)])
 IterParts(pk) == Dfs(pk, <<ROOT>>, <<>>)
 
-TypeOfPart(pk, n) == (CHOOSE p \in PartSet(pk) : p.n = n).type
-PlOfPart(pk, n)   == (CHOOSE p \in PartSet(pk) : p.n = n).pl
+TypeOfPart(pk, n) == IF \E p \in PartSet(pk) : p.n = n THEN (CHOOSE p \in PartSet(pk) : p.n = n).type ELSE "NONE"
+PlOfPart(pk, n)   == IF \E p \in PartSet(pk) : p.n = n THEN (CHOOSE p \in PartSet(pk) : p.n = n).pl ELSE "NONE"
 
 \* _ContentTypesItem._defaults_and_overrides.  ConflictRule = "lastwins" is the pinned code (a Default is
 \* overwritten by a later part with the same extension and another defaultable type); "override" is the
